@@ -115,6 +115,7 @@ CANARIES = {
         ("chain-extended-in-place", "stix2/pattern_visitor.py", "text", ['                return self.instantiate("OrBooleanExpression", children[0].operands + [children[2]])', '                children[0].operands.append(children[2])\n                return children[0]'], "C10.operator-table"),
         ("hex-validator-dollar", "stix2/patterns.py", "text", ["'^([a-fA-F0-9]{2})+\\Z'", "'^([a-fA-F0-9]{2})+$'"], "C10.hex-literal-form"),
         ("lenient-base64-validation", "stix2/patterns.py", "text", ["base64.b64decode(value, validate=True)", "base64.b64decode(value)"], "C10.binary-literal-form"),
+        ("path-text-cut-at-dots", "stix2/patterns.py", "text", ["        steps = [m.group(0) for m in _PATH_STEP_RE.finditer(path)]\n", "        steps = path.split(\".\")\n"], "C10.path-text"),
     ],
     "C11": [
         ("overwrite-refusal-removed", "stix2/datastore/filesystem.py", "drop-raise-guard", ["_check_path_and_write", "os.path.isfile"], "C11.check-before-write"),
